@@ -889,6 +889,28 @@ def f_operator_dunders():
     return a.m, c is a, c.m, d.m, e.m, (_Mask(7) & _Mask(5)).m, (3 & _Mask(6)).m, _Mask(3) == _Mask(3), _Mask(3) != _Mask(4), len({_Mask(1), _Mask(1)})
 
 
+class _Strict:
+    def __init__(self, v):
+        self.v = v
+
+    def __eq__(self, other):
+        if other.__class__ is not self.__class__:
+            return NotImplemented
+        return self.v == other.v
+
+    def __hash__(self):
+        return hash(self.v)
+
+
+class _StrictSub(_Strict):
+    pass
+
+
+def f_eq_notimplemented():
+    a, b, c = _Strict(1), _StrictSub(1), _Strict(1)
+    return a == b, b == a, a == c, a != b, a == 1, a != 1, b == _StrictSub(1), a in [b], a in [c], len({a, b}), len({a, c})
+
+
 def f_str_bits():
     s = bin(0b101101)[2:]
     return s, s.zfill(8), int(s[::-1], 2), s.count('1'), s.rfind('1'), s[:3] + '0' * 2, '{:08b}'.format(5), f'{5:08b}'[-3:], ''.join('1' if c == '0' else '0' for c in s)
